@@ -1,0 +1,47 @@
+// Copyright © 2023 Ory Corp
+// SPDX-License-Identifier: Apache-2.0
+
+package checkgroup
+
+import (
+	"context"
+	"sync/atomic"
+)
+
+// A sub-check that was cut short because the max-depth or max-width limit was
+// reached reports MembershipUnknown. Unions, intersections and checkgroups
+// treat "unknown" like "not a member", which is the safe choice for them. A
+// negation, however, must be able to tell "not a member" from "we did not look
+// far enough": inverting the latter would grant access because of a limit.
+//
+// Therefore, whoever turns an unknown result into "not a member" records that
+// fact in the truncation marker of the context it was called with, i.e., the
+// marker of the consumer of its result. Markers follow the flow of results:
+// every checkgroup owns one for the results of its sub-checks and passes it on
+// when its own result is requested, and a negation owns one for its child.
+
+type truncationMarkerKey struct{}
+
+// TruncationMarker records that a result was derived from a sub-check that was
+// cut short by a limit.
+type TruncationMarker struct {
+	truncated atomic.Bool
+}
+
+// Truncated returns true if a limit influenced a result that was delivered to
+// the owner of the marker.
+func (m *TruncationMarker) Truncated() bool { return m.truncated.Load() }
+
+// WithTruncationMarker returns a context that carries the marker. Check
+// functions called with that context report truncation to the marker.
+func WithTruncationMarker(ctx context.Context, m *TruncationMarker) context.Context {
+	return context.WithValue(ctx, truncationMarkerKey{}, m)
+}
+
+// MarkTruncated records in the marker of ctx (if any) that the result
+// delivered to the caller was influenced by a limit.
+func MarkTruncated(ctx context.Context) {
+	if m, ok := ctx.Value(truncationMarkerKey{}).(*TruncationMarker); ok {
+		m.truncated.Store(true)
+	}
+}
